@@ -405,7 +405,6 @@ func parentMain(t *testing.T, chk *Check, tier string, seed int64, budget time.D
 			fmt.Println("cannot create scratch dir:", err)
 			os.Exit(2)
 		}
-		defer os.RemoveAll(dir)
 		results = make([]*Result, nw)
 		errs := make([]string, nw)
 		var wg sync.WaitGroup
@@ -451,6 +450,7 @@ func parentMain(t *testing.T, chk *Check, tier string, seed int64, budget time.D
 			}(i)
 		}
 		wg.Wait()
+		os.RemoveAll(dir) // results and log tails are already in memory (the violation path below leaves through os.Exit)
 		for _, e := range errs {
 			if e != "" {
 				harnessErrs = append(harnessErrs, e)
